@@ -199,8 +199,8 @@ def run(ctx: Ctx) -> int:
     ctx.count(len(rows))
     bad, stats = validate(ctx, "TraceKek", "TraceKek.cfg", rows, chunk=3000, what="kek")
     ctx.cov["leading_zero_cases"] = sum(s.get("leadingZero", 0) for s in stats)
-    if ctx.cov["leading_zero_cases"] < 20:
-        raise MachineryError("too few leading-zero cases generated")
+    if ctx.cov["leading_zero_cases"] < 20 and not bad:
+        raise MachineryError("too few leading-zero cases generated")      # vacuity guard (only meaningful when nothing failed)
     for i, clauses in bad.items():
         r_ = rows[i]
         grp = f"p={r_['grp'][0]},kl={r_['grp'][2]}" if r_["small"] else "std"
